@@ -492,3 +492,5 @@ func normEmptyMsgs(m proto.Message) proto.Message {
 	walk(c.ProtoReflect())
 	return c
 }
+
+func worldSpec(cr *wire.ClientReq) *drive.ReqSpec { return world.SpecFromClient(cr) }
